@@ -11,12 +11,18 @@ RELAX = ['order_frac', 'order_full', 'cap', 'balance']
 def run(tier, seed):
     chk = CheckRun('C20', tier, seed)
     th = tier == 'thorough'
-    fams = [('orders', fam.fam_orders(thorough=th)), ('orders_dt', fam.fam_orders_dt())]
+    fams = [('orders', fam.fam_orders(thorough=th)), ('orders_dt', fam.fam_orders_dt()), ('orders_companions', fam.fam_orders_companions())]
     if th:
         fams.append(('orders_T4', fam.fam_orders(T=4)))
     for tag, cfgs in fams:
-        def make_real(cfg):
-            return R.Real(cfg)
+        def make_real(cfg, tag=tag):
+            r = R.Real(cfg)
+            if tag == 'orders_companions':
+                # fresh objects and objects that were set up before on the same grid must both conform to the same TLC behaviours
+                r2 = R.Real(cfg)
+                r2.presetups = 1
+                return [r, r2]
+            return r
         step = 3 if tier == 'quick' else 1
         neg = [c for k, c in enumerate(cfgs) if k % step == (seed % step)]
         pos = common.spec_to_code(chk, cfgs, make_real, relax=RELAX, neg_cfgs=neg, tag=tag)
